@@ -25,6 +25,17 @@ struct Res {
     dense: [Vec<f64>; 2],
 }
 
+/// the same run on a thread of its own under a watchdog: a budget of u64::MAX ("no limit") ends only when the threshold
+/// is crossed, and a defective stop rule must not hang the recorder
+fn run_watched(t: &Tree, meth: &str, preset: &str, k: usize, budget: u64, thr: f64, seed: u64, secs: u64) -> Option<Result<Res, String>> {
+    let (tx, rx) = std::sync::mpsc::channel();
+    let (t2, meth, preset) = (t.clone(), meth.to_string(), preset.to_string());
+    std::thread::spawn(move || {
+        let _ = tx.send(run(&t2, &meth, &preset, k, budget, thr, seed));
+    });
+    rx.recv_timeout(std::time::Duration::from_secs(secs)).ok()
+}
+
 fn run(t: &Tree, meth: &str, preset: &str, k: usize, budget: u64, thr: f64, seed: u64) -> Result<Res, String> {
     let t2 = t.clone();
     let (meth, preset) = (meth.to_string(), preset.to_string());
@@ -87,7 +98,11 @@ pub fn record(args: &Args) {
     let mut runs = 0;
     let mut early = 0;
     let mut failed = Vec::new();
+    let mut hung = false;
     for (gi, (name, t)) in games.iter().enumerate() {
+        if hung {
+            break;
+        }
         let meth = METHODS[gi % 3];
         let preset = PRESETS[(gi / 3) % 5];
         let budget = budgets[gi % budgets.len()];
@@ -140,7 +155,40 @@ pub fn record(args: &Args) {
                     Err(msg) => failed.push(json!({"game": name, "k": k, "what": msg})),
                 }
             }
+            // the documented "no limit": budget u64::MAX with a threshold the series is known to cross.  One thread
+            // (bitwise deterministic): just above every total bound; several threads: above twice the largest bound
+            // (crossed in the first iteration whatever the summation order) and +inf
+            let biggest = totals.iter().cloned().fold(0.0, f64::max);
+            let list: Vec<f64> = if k == 1 {
+                totals.iter().map(|m| next_up(*m)).chain([f64::INFINITY]).collect()
+            } else {
+                vec![2.0 * biggest + 1.0, f64::INFINITY]
+            };
+            for thr in list {
+                if !(biggest.is_finite()) {
+                    break;
+                }
+                match run_watched(t, meth, preset, k, u64::MAX, thr, sd, 30) {
+                    Some(Ok(r)) => {
+                        runs += 1;
+                        early += 1;
+                        out.line(&json!({"e": "unlimited", "game": name, "k": k, "N": budget, "r": util::token(thr),
+                            "iterbounds": r.iterbounds.iter().map(toks).collect::<Vec<_>>(), "ret": toks(&r.ret), "digest": digest(&r.dense)}));
+                    }
+                    Some(Err(msg)) => failed.push(json!({"game": name, "k": k, "budget": "u64::MAX", "r": thr.to_string(), "what": msg})),
+                    None => {
+                        failed.push(json!({"game": name, "k": k, "budget": "u64::MAX", "r": thr.to_string(),
+                            "what": "no return within 30 s although the unthresholded series crosses the threshold"}));
+                        hung = true;
+                        break;
+                    }
+                }
+            }
+            if hung {
+                break;
+            }
         }
     }
+    let _ = hung;
     println!("{}", json!({"runs": runs, "stopped_early": early, "failed": failed, "games": games.len()}));
 }
